@@ -39,6 +39,7 @@ func runC12(c *Ctx, r *Report) {
 	c05FreshInstance(c, r, "C12-d/fresh-instance")
 	c02ResultNotRecycled(c, r, "C12-d/result-not-recycled")
 	c02NamesVerbatim(c, r, "C12-e/names-verbatim")
+	c12TokenPerPlaceholder(c, r, "C12-e/token-per-placeholder")
 }
 
 // byteFoldFuncs: functions of the package with signature func(byte) byte.
